@@ -59,10 +59,13 @@ def hexagon(shape, radius, shift=(0, 0), rotate=False, antialias=True):
 
     inner_radius = radius * np.sqrt(3)/2
 
-    for n in range(6):
+    # the six edge normals come in opposite pairs: evaluate three of them and
+    # use |rho|, so that the mask is exactly symmetric under the half-turn about
+    # the centre (sin(theta + pi) == -sin(theta) only to 1 ulp in floats)
+    for n in range(3):
     
         theta = n * np.pi/3 if rotate else n * np.pi/3 + np.pi/6
-        rho = r * np.sin(theta) + c * np.cos(theta)
+        rho = np.abs(r * np.sin(theta) + c * np.cos(theta))
     
         if antialias:
             slc = np.clip(inner_radius + 0.5 - rho, 0.0, 1.0)
